@@ -99,6 +99,44 @@ def audit_operand_shapes(ctx):
     ctx.cov['barrier_operand_shape_functions'] = n
     return bad
 
+def audit_result_types(ctx):
+    """the value-returning operations return a value OF THE OPERAND'S TYPE (truncated to its width, with its signedness) - also when the result is used directly in a
+    wider expression instead of being assigned to a variable of that type first: generated translation unit with compile-time type assertions for every op x operand
+    type, and a run-time check that widens the results directly at the width / sign boundaries; default, pre-C11 and builtins configurations"""
+    src = os.path.join(BUILD, 'ua_rettype_gen.c'); n = 0
+    types = [('signed char', 'sc'), ('unsigned char', 'uc'), ('short', 'ss'), ('unsigned short', 'us'), ('int', 'si'), ('unsigned int', 'ui'), ('long', 'sl'), ('unsigned long', 'ul')]
+    with open(src, 'w') as f:
+        f.write('#include <stdio.h>\n#include <urcu/uatomic.h>\nstatic int bad;\n')
+        f.write('#define SAME(e, T) _Static_assert(__builtin_types_compatible_p(__typeof__(e), T) && sizeof(e) == sizeof(T), "result type of " #e " is not " #T)\n')
+        f.write('#define EXPECT(e, want) do { long long got = (long long)(e); if (got != (long long)(want)) { printf("BUG %s = %lld, expected %lld\\n", #e, got, (long long)(want)); bad = 1; } } while (0)\n')
+        for ty, tn in types:
+            f.write('static %s v_%s;\n' % (ty, tn))
+        f.write('void types(void){\n')
+        for ty, tn in types:
+            for e in ('uatomic_add_return(&v_%s, 1)', 'uatomic_sub_return(&v_%s, 1)', 'uatomic_xchg(&v_%s, 1)', 'uatomic_cmpxchg(&v_%s, 0, 1)', 'uatomic_read(&v_%s)'):
+                f.write('SAME(%s, %s);\n' % (e % tn, ty)); n += 1
+        f.write('}\nint main(void){\n')
+        for ty, tn in types:
+            sg = not ty.startswith('unsigned'); 
+            f.write('  v_%s = 1; EXPECT(uatomic_sub_return(&v_%s, 2), (%s)-1);\n' % (tn, tn, ty))                   # wraps below zero
+            f.write('  v_%s = (%s)-1; EXPECT(uatomic_add_return(&v_%s, 1), 0);\n' % (tn, ty, tn))                   # wraps above the width (unsigned) / -1 + 1
+            f.write('  v_%s = (%s)-1; EXPECT(uatomic_xchg(&v_%s, 0), (%s)-1);\n' % (tn, ty, tn, ty))
+            f.write('  v_%s = (%s)-1; EXPECT(uatomic_cmpxchg(&v_%s, (%s)-1, 0), (%s)-1);\n' % (tn, ty, tn, ty, ty))
+            f.write('  v_%s = (%s)-1; EXPECT(uatomic_cmpxchg(&v_%s, (%s)-1, 0) == (%s)-1, 1);\n' % (tn, ty, tn, ty, ty))   # the old value compares equal to the expected one in the operand's own type
+        f.write('  return bad; }\n')
+    bad = []
+    for tag, extra in (('default', []), ('-std=gnu99', ['-std=gnu99']), ('builtins', ['-DCONFIG_RCU_USE_ATOMIC_BUILTINS'])):
+        for opt in ('-O2', '-O0'):
+            exe = os.path.join(BUILD, 'ua_rettype_gen')
+            rc, so, se = sh(['gcc', opt, '-w'] + extra + INC + [src, '-o', exe])
+            if rc:
+                m = re.search(r'error: static assertion failed: "([^"]+)"', se)
+                bad.append('%s build %s: %s' % (tag, opt, m.group(1) if m else 'generated result-type litmus does not compile: ' + se[-300:])); continue
+            rc, out, _ = sh([exe], timeout=30)
+            if rc or 'BUG' in out: bad.append('%s build %s: %s' % (tag, opt, (re.search(r'^BUG.*$', out, flags=re.M) or [out[-200:]])[0] if not hasattr(re.search(r'^BUG.*$', out, flags=re.M), 'group') else re.search(r'^BUG.*$', out, flags=re.M).group(0)))
+    ctx.cov['result_type_assertions'] = n
+    return bad[:4]
+
 def run(ctx):
     ctx.cov['source_hash'] = source_hash(FILES)
     prove(ctx)
@@ -131,6 +169,8 @@ def run(ctx):
     ctx.cov['distinct_nontrivial'] = len(set(dist))  # distinct (op, width, signedness) classes exercised
     ctx.cov['input_distribution'] = {'op_width_signed_classes': len(dist), 'min_per_class': min(dist.values()) if dist else 0, 'builds': [v[0] for v in variants]}
     for b in audit_header(ctx): ctx.fail('translator', 'asm audit of include/urcu/uatomic/x86.h', b)
+    for b in audit_result_types(ctx):
+        ctx.fail('oracle', 'results have the operand type (compile-time assertions + direct widening at the boundaries)', b, concrete={'program': 'build/ua_rettype_gen.c (generated by tools/props/C20.py audit_result_types)', 'finding': b})
     for b in audit_operand_shapes(ctx):
         ctx.fail('oracle', 'full barrier for every operand shape (emitted code)', b, concrete={'program': 'build/ua_barrier_gen.c (generated by tools/props/C20.py audit_operand_shapes) compiled with gcc -O2', 'finding': b})
     for b in audit_emitted(ctx):
